@@ -69,16 +69,18 @@ impl Rec {
         self.verdict_log = digest_bytes(self.verdict_log, invariant.as_bytes());
         self.verdict_log = digest_bytes(self.verdict_log, &[cond as u8]);
         if !cond {
-            if self.violations.len() < 16 {
-                self.violations.push(Violation {
-                    property: prop.to_string(),
-                    invariant: invariant.to_string(),
-                    detail: detail(),
-                    at: self.step,
-                });
-            }
+            let d = detail();
+            self.push_violation(prop, invariant, d);
         }
         cond
+    }
+    /// keep one violation per (invariant, key) class per run, at most 64 classes
+    fn push_violation(&mut self, prop: &str, invariant: &str, detail: String) {
+        let key = detail.split(" | ").next().unwrap_or("").to_string();
+        let dup = self.violations.iter().any(|v| v.invariant == invariant && v.detail.split(" | ").next().unwrap_or("") == key);
+        if !dup && self.violations.len() < 64 {
+            self.violations.push(Violation { property: prop.to_string(), invariant: invariant.to_string(), detail, at: self.step });
+        }
     }
     /// record an abstract case for the distinct/non-trivial count
     pub fn case(&mut self, parts: &[u64], nontrivial: bool) {
@@ -128,15 +130,9 @@ impl Rec {
                 let under_test = lib.name() != "pinned";
                 if self.panic_is_violation && under_test {
                     self.evals += 1;
-                    if self.violations.len() < 16 {
-                        let site = panic_site(m);
-                        self.violations.push(Violation {
-                            property: self.property.clone(),
-                            invariant: "no-abort".to_string(),
-                            detail: format!("op={:?} g={} lib={} site={} msg={}", op, g.name(), lib.name(), site, m),
-                            at: self.step,
-                        });
-                    }
+                    let site = panic_site(m);
+                    let p = self.property.clone();
+                    self.push_violation(&p, "no-abort", format!("abort at {} | op={:?} g={} lib={} msg={}", site, op, g.name(), lib.name(), m));
                 } else {
                     self.note(format!("unwind in {:?} ({}) lib={}: {}", op, g.name(), lib.name(), m));
                 }
